@@ -13,6 +13,9 @@ package cache
 //@ pure ctrsOK(cch *cache) bool = forall id string :: id in cch.Containers ==> cch.Containers[id] != nil && cch.Containers[id].Ctr != nil
 // A Container interface value holding a *container is modelled by the pointer: the "cast" is the identity.
 //@ pure asCtr(c *container) *container = c
+//@ pure asPod(p *pod) *pod = p
+// Every cached pod is stored under its own id (what InsertPod establishes; the NRI messages are never rewritten).
+//@ pure podKeyed(cch *cache) bool = forall id string :: id in cch.Pods ==> cch.Pods[id] != nil && cch.Pods[id].Pod != nil && cch.Pods[id].Pod.Id == id
 //@ pure cacheOK(cch *cache) bool = cch != nil && cch.Pods != nil && cch.Containers != nil && cch.PolicyJSON != nil && podsOK(cch) && ctrsOK(cch)
 
 // Lookups: ok <==> a non-nil object is returned (what the NRI handlers rely on after `if !ok { return }`).
@@ -40,6 +43,10 @@ package cache
 //@   ensures[C14,C11] forall k string :: k in cch.Pods ==> cch.Pods[k] == old(cch.Pods[k])
 //@   ensures[C14,C11] dom(cch.Containers) == old(dom(cch.Containers)) && vals(cch.Containers) == old(vals(cch.Containers))
 //@   ensures[C14] cacheOK(cch)
+//@   ensures[C11] old(keyed(cch)) ==> keyed(cch)
+//@   ensures[C11] old(podKeyed(cch)) ==> podKeyed(cch)
+//@   ensures[C11] forall x *nri.PodSandbox :: old(alive(x)) ==> x.Id == old(x.Id)
+//@   ensures[C11] forall x *nri.Container :: old(alive(x)) ==> x.Id == old(x.Id) && x.PodSandboxId == old(x.PodSandboxId) && x.State == old(x.State)
 
 // GetPodResources waits for the pod-resources fetch goroutine (channel receive: outside the verified subset);
 // the result is arbitrary (possibly nil), nothing reachable from the cache is written.
@@ -86,6 +93,7 @@ package cache
 //@     ctrRes(c).RdtClass if ctrHasRes(c), reqRes(c).RdtClass if reqHasRes(c), ctrRes(c).BlockioClass if ctrHasRes(c), reqRes(c).BlockioClass if reqHasRes(c)
 //@   ensures[C14] cwf(c) && reqOK(c)
 //@   ensures[C05] old(kindOK(c)) ==> kindOK(c)
+//@   ensures[C11] c.cache.pending == old(c.cache.pending) || fresh(c.cache.pending)
 
 // C05: the kind of a pending request created while the container is being set up matches the container's state
 // (an adjustment exactly for a container in state Creating) - the creation adjustment is what CreateContainer returns.
@@ -101,6 +109,7 @@ package cache
 //@   ensures[C14] (result1 == nil) <==> (nriCtr.GetPodSandboxId() in cch.Pods)
 //@   ensures[C14] result1 == nil ==> fresh(result0) && result0.Ctr == nriCtr && result0.cache == cch
 //@   ensures[C05] result1 == nil ==> kindOK(result0) && reqOK(result0)
+//@   ensures[C11] cch.pending == old(cch.pending) || fresh(cch.pending)
 //@ loop 0 in (*cache).createContainer at "range opts"
 //@   modifies nriCtr.State
 //@   invariant[C14] -1 <= rangeindex && rangeindex < len(opts)
@@ -138,6 +147,11 @@ package cache
 //@   ensures[C14] dom(cch.Pods) == upd(old(dom(cch.Pods)), nriPod.Id, true) && cch.Pods[nriPod.Id] == result
 //@   ensures[C14] forall id string :: id != nriPod.Id ==> cch.Pods[id] == old(cch.Pods[id])
 //@   ensures[C14] dom(cch.Containers) == old(dom(cch.Containers)) && vals(cch.Containers) == old(vals(cch.Containers))
+//@   ensures[C11] asPod(result).Pod == nriPod && fresh(asPod(result))
+//@   ensures[C11] old(keyed(cch)) ==> keyed(cch)
+//@   ensures[C11] old(podKeyed(cch)) ==> podKeyed(cch)
+//@   ensures[C11] forall x *nri.PodSandbox :: old(alive(x)) ==> x.Id == old(x.Id)
+//@   ensures[C11] forall x *nri.Container :: old(alive(x)) ==> x.Id == old(x.Id) && x.PodSandboxId == old(x.PodSandboxId) && x.State == old(x.State)
 
 //@ func (*cache).InsertContainer safety
 //@   requires cacheOK(cch) && ctr != nil && optsOK(opts)
@@ -154,6 +168,9 @@ package cache
 //@   # has no name in modifies clauses; "all other map[string]struct{} keep their domain" cannot be written either: the
 //@   # type expression `struct{}` is not accepted for bound variables)
 //@   ensures[C11] forall x *nri.Container :: old(alive(x)) ==> x.Id == old(x.Id) && x.PodSandboxId == old(x.PodSandboxId)
+//@   # string sets other than the cache's own pending set keep their members (`unit` is the spec name of struct{})
+//@   ensures[C11] forall s map[string]unit :: old(alive(s)) && s != old(cch.pending) ==> dom(s) == old(dom(s))
+//@   ensures[C11] cch.pending == old(cch.pending) || fresh(cch.pending)
 
 // Note: the entry removed is the one keyed by the container's own id (c.GetID()), not by the argument.
 //@ func (*cache).DeleteContainer safety
@@ -165,6 +182,9 @@ package cache
 //@   ensures[C14,C11] dom(cch.Pods) == old(dom(cch.Pods)) && vals(cch.Pods) == old(vals(cch.Pods))
 //@   ensures[C14] cacheOK(cch)
 //@   ensures[C11] old(keyed(cch)) ==> keyed(cch)
+//@   ensures[C11] old(podKeyed(cch)) ==> podKeyed(cch)
+//@   ensures[C11] forall x *nri.PodSandbox :: old(alive(x)) ==> x.Id == old(x.Id)
+//@   ensures[C11] forall x *nri.Container :: old(alive(x)) ==> x.Id == old(x.Id) && x.PodSandboxId == old(x.PodSandboxId) && x.State == old(x.State)
 
 // ---- resource updates (UpdateContainer) ----------------------------------------------------------------------
 // Value ranges of the cgroup parameters (the C20 contract of estimateResourceRequirements is stated for them;
